@@ -1,0 +1,52 @@
+# -*- coding: UTF-8 -*-
+"""
+Verification hooks, inert unless the environment variable PYCEL_VERIF is set
+*and* a sink has been installed with `set_sink()`.
+
+Events passed to the sink (all emitted on the evaluating thread):
+
+    ('begin', excel_formula, cse_array_address)   formula evaluation starts
+    ('end', excel_formula, value)                 ... returned value
+    ('fail', excel_formula, exception)            ... raised exception
+    ('read', excel_formula, kind, address)        formula reads a cell ('_C_')
+                                                  or a range ('_R_')
+"""
+import os
+
+ENABLED = bool(os.environ.get('PYCEL_VERIF'))
+
+_sink = None
+
+
+def set_sink(sink):
+    """Install (or with None remove) the event sink, returns the previous one"""
+    global _sink
+    previous, _sink = _sink, sink
+    return previous
+
+
+def emit(*event):
+    if _sink is not None:
+        _sink(*event)
+
+
+def wrap_eval(eval_func):
+    """Report begin/end/fail of every formula evaluation"""
+    def traced_eval_func(excel_formula, cse_array_address=None):
+        emit('begin', excel_formula, cse_array_address)
+        try:
+            value = eval_func(excel_formula, cse_array_address=cse_array_address)
+        except BaseException as exc:
+            emit('fail', excel_formula, exc)
+            raise
+        emit('end', excel_formula, value)
+        return value
+    return traced_eval_func
+
+
+def wrap_read(kind, reader, excel_formula):
+    """Report every cell/range read done by the compiled formula"""
+    def traced_reader(address):
+        emit('read', excel_formula, kind, address)
+        return reader(address)
+    return traced_reader
